@@ -416,4 +416,131 @@ theorem ema_grouped_timed_eq (k : Kind) (ln2 : FVal) (expf : FVal → FVal) (hal
   rw [← hlen] at this
   simpa [minInt64] using this
 
+/-! ### the ungrouped `_ema_adjusted` -/
+
+/-- running state of a single series (the model's `emaStep` folded from the empty state) -/
+def runE (β : Rat) (xs : List (Option Rat)) : ESt := xs.foldl (emaStep β) eInit
+
+structure AdjInv (β : Rat) (xs : List (Option Rat)) (t : Nat) (st : Ema_adjusted_loop1St) : Prop where
+  hr : st.residual = .q (runE β (xs.take t)).r
+  hw : st.residual_weights = .q (runE β (xs.take t)).w
+  hw0 : 0 ≤ (runE β (xs.take t)).w
+  hlast : (∃ j, j < t ∧ ∃ v, xs[j]? = some (some v)) → 0 < t ∧ st.out' ((t : Int) - 1) = optF (runE β (xs.take t)).last
+
+theorem runE_snoc (β : Rat) (xs : List (Option Rat)) (t : Nat) (ht : t < xs.length) :
+    runE β (xs.take (t + 1)) = emaStep β (runE β (xs.take t)) xs[t] := by
+  unfold runE
+  rw [List.take_succ_eq_append_getElem ht, List.foldl_append]
+  rfl
+
+theorem adj_step (k : Kind) (β : Rat) (hβ : 0 ≤ β) (vals : List FVal) (xs : List (Option Rat))
+    (hxs : xs = vals.map (fun v => obsOf v false)) (t : Nat) (ht : t < vals.length) (st : Ema_adjusted_loop1St)
+    (h : AdjInv β xs t st) :
+    let st' := ema_adjusted_loop1_step k vals.length (arrOf vals .nan) (.q β) vals.length st (t : Int)
+    AdjInv β xs (t + 1) st' ∧ (∀ j : Int, j ≠ (t : Int) → st'.out' j = st.out' j) ∧
+      ((∃ j, j < t + 1 ∧ ∃ v, xs[j]? = some (some v)) →
+        st'.out' (t : Int) = optF (emaOut (runE β (xs.take t)) (xs.getD t none))) := by
+  obtain ⟨so, sw, sr⟩ := st
+  obtain ⟨hr, hw, hw0, hlast⟩ := h
+  simp only at hr hw hw0 hlast
+  have htx : t < xs.length := by rw [hxs]; simpa using ht
+  have hxt : xs[t] = obsOf (vals.getD t .nan) false := by
+    subst hxs; simp [List.getD_eq_getElem?_getD, ht]
+  intro st'
+  simp only [st', ema_adjusted_loop1_step, normI_natCast, arrOf_natCast, hr, hw]
+  have h1w : ¬ ((1 : Rat) + (runE β (xs.take t)).w = 0) := by intro h; linarith
+  have hcast : ((1 : Int) : Rat) = 1 := by simp
+  cases hv : vals.getD t .nan with
+  | nan =>
+    have hxn : xs[t] = none := by rw [hxt, hv]; rfl
+    have hgd : xs.getD t none = none := by rw [List.getD_eq_getElem?_getD, List.getElem?_eq_getElem htx, hxn]; rfl
+    have hisn : FVal.isNan FVal.nan = true := rfl
+    simp only [hisn, if_true, FVal.mul]
+    refine ⟨⟨?_, ?_, ?_, ?_⟩, fun j hj => by simp [aset_apply, hj], ?_⟩
+    · rw [runE_snoc β xs t htx, hxn]; rfl
+    · rw [runE_snoc β xs t htx, hxn]; rfl
+    · rw [runE_snoc β xs t htx, hxn]; exact Rat.mul_nonneg hw0 hβ
+    · intro hex
+      refine ⟨by omega, ?_⟩
+      have hex' : ∃ j, j < t ∧ ∃ v, xs[j]? = some (some v) := by
+        obtain ⟨j, hj, v, hjv⟩ := hex
+        by_cases e : j = t
+        · subst e; rw [List.getElem?_eq_getElem htx, hxn] at hjv; cases hjv
+        · exact ⟨j, by omega, v, hjv⟩
+      obtain ⟨ht0, hl⟩ := hlast hex'
+      have e1 : ((t + 1 : Nat) : Int) - 1 = (t : Int) := by omega
+      rw [e1]
+      have e2 : normI (vals.length : Int) ((t : Int) - 1) = (t : Int) - 1 := normI_nonneg _ _ (by omega)
+      show aset so (t : Int) _ (t : Int) = _
+      rw [aset_same, e2, hl, runE_snoc β xs t htx, hxn]; rfl
+    · intro hex
+      have hex' : ∃ j, j < t ∧ ∃ v, xs[j]? = some (some v) := by
+        obtain ⟨j, hj, v, hjv⟩ := hex
+        by_cases e : j = t
+        · subst e; rw [List.getElem?_eq_getElem htx, hxn] at hjv; cases hjv
+        · exact ⟨j, by omega, v, hjv⟩
+      obtain ⟨ht0, hl⟩ := hlast hex'
+      have e2 : normI (vals.length : Int) ((t : Int) - 1) = (t : Int) - 1 := normI_nonneg _ _ (by omega)
+      rw [e2, hl, hgd, aset_same]; rfl
+  | q v =>
+    have hxn : xs[t] = some v := by rw [hxt, hv]; rfl
+    have hgd : xs.getD t none = some v := by rw [List.getD_eq_getElem?_getD, List.getElem?_eq_getElem htx, hxn]; rfl
+    have hisq : FVal.isNan (FVal.q v) = false := rfl
+    simp only [hisq, Bool.false_eq_true, if_false, FVal.mul, FVal.add, FVal.div, FVal.ofInt, hcast, h1w]
+    refine ⟨⟨?_, ?_, ?_, ?_⟩, fun j hj => by simp [aset_apply, hj], ?_⟩
+    · rw [runE_snoc β xs t htx, hxn]; simp only [emaStep]
+    · rw [runE_snoc β xs t htx, hxn]; simp only [emaStep]
+    · rw [runE_snoc β xs t htx, hxn]; simp only [emaStep]
+      exact Rat.mul_nonneg (Rat.add_nonneg hw0 (by decide)) hβ
+    · intro _
+      refine ⟨by omega, ?_⟩
+      have e1 : ((t + 1 : Nat) : Int) - 1 = (t : Int) := by omega
+      rw [e1, runE_snoc β xs t htx, hxn]
+      show aset so (t : Int) _ (t : Int) = _
+      rw [aset_same]
+      simp [emaStep, optF]
+    · intro _
+      rw [hgd, aset_same]; simp [emaOut, optF]
+
+/-- **the ungrouped `_ema_adjusted` is the single-series model** from the first valid observation on: once some value
+up to row `i` is not NaN, cell `i` holds the model's output on the series' own history (before that the kernel leaves the
+zero of `zeros_like` - not a claim of the property) -/
+theorem ema_adjusted_eq (k : Kind) (β : Rat) (hβ : 0 ≤ β) (vals : List FVal) (i : Nat) (hi : i < vals.length)
+    (hvalid : ∃ j, j < i + 1 ∧ ∃ v, (vals.map (fun v => obsOf v false))[j]? = some (some v)) :
+    let xs := vals.map (fun v => obsOf v false)
+    let r := ema_adjusted k vals.length (arrOf vals .nan) (.q (1 - β))
+    r.2 = false ∧ r.1 (i : Int) = optF (emaOut (runE β (xs.take i)) (xs.getD i none)) := by
+  intro xs r
+  have hb : FVal.sub (FVal.ofInt 1) (FVal.q (1 - β)) = FVal.q β := by
+    simp only [FVal.sub, FVal.ofInt]; congr 1; simp
+  have key : ∀ m : Nat, m ≤ vals.length →
+      let st := ((List.range m).map (fun j : Nat => (j : Int))).foldl
+        (ema_adjusted_loop1_step k vals.length (arrOf vals .nan) (.q β) vals.length)
+        ⟨fun _ => .ofInt 0, .ofInt 0, .ofInt 0⟩
+      AdjInv β xs m st ∧ ∀ j, j < m → (∃ j', j' < j + 1 ∧ ∃ v, xs[j']? = some (some v)) →
+        st.out' (j : Int) = optF (emaOut (runE β (xs.take j)) (xs.getD j none)) := by
+    intro m
+    induction m with
+    | zero =>
+      intro _ st
+      refine ⟨⟨by simp [st, runE, eInit, FVal.ofInt], by simp [st, runE, eInit, FVal.ofInt], by simp [runE, eInit], ?_⟩, ?_⟩
+      · rintro ⟨j, hj, _⟩; omega
+      · intro j hj; omega
+    | succ m ih =>
+      intro hm st
+      obtain ⟨hinv, hcells⟩ := ih (by omega)
+      have hstep := adj_step k β hβ vals xs rfl m (by omega) _ hinv
+      obtain ⟨hinv', hother, hcell⟩ := hstep
+      simp only [st, List.range_succ, List.map_append, List.foldl_append, List.map_cons, List.map_nil, List.foldl_cons,
+        List.foldl_nil]
+      refine ⟨hinv', fun j hj hex => ?_⟩
+      by_cases e : j = m
+      · subst e; exact hcell hex
+      · rw [hother (j : Int) (by omega)]
+        exact hcells j (by omega) hex
+  obtain ⟨_, hcells⟩ := key vals.length (Nat.le_refl _)
+  refine ⟨by simp [r, ema_adjusted], ?_⟩
+  simp only [r, ema_adjusted, hb, rangeI_natCast]
+  exact hcells i hi hvalid
+
 end GV.LoopBridge
